@@ -3,13 +3,14 @@ package main
 import (
 	"fmt"
 	"go/ast"
+	"go/token"
 	"strings"
 )
 
 // Gen.ProfSelect: the Pyroscope selector planner (reader/prof/transpiler/planner_selector.go).
-//   * getMatchers: pseudo-label ↦ (SQL field the matcher is applied to, wrapped in arrayExists over sample_types_units?)
-//   * getMatcherClause: operator ↦ (comparison, applied to match(field, value)?)
-//   * Process / the key-value fallback: shape guards (fail closed), the text itself is compared in the fpsql-prof stream
+//   - getMatchers: pseudo-label ↦ (SQL field the matcher is applied to, wrapped in arrayExists over sample_types_units?)
+//   - getMatcherClause: operator ↦ (comparison, applied to match(field, value)?)
+//   - Process / the key-value fallback: shape guards (fail closed), the text itself is compared in the fpsql-prof stream
 func init() {
 	register("ProfSelect", func() (string, error) {
 		cmp, err := sqlCmpFns()
@@ -161,7 +162,66 @@ func init() {
 		}
 		// (the tail of the loop, getArrayExists and Process are not Gen facts: the profsql stream compares the
 		// rendered text byte for byte and judges every selector's condition in it)
-		_ = loopBody
+		// the head of the loop: `_str, err := selector.Val.Unquote()`, its error check, then optionally the anchoring
+		// `if selector.Op == "=~" || selector.Op == "!~" { _str = "^(?:" + _str + ")$" }`, then `var clause …`, the switch
+		var anchoredOps []string
+		anchorPre, anchorSuf := "", ""
+		if len(loopBody) < 4 || promPrintNode(fset, loopBody[0]) != "_str, err := selector.Val.Unquote()" {
+			return "", fmt.Errorf("getMatchers: the loop does not start with the Unquote of the selector value")
+		}
+		for _, st := range loopBody[2:] {
+			if _, ok := st.(*ast.SwitchStmt); ok {
+				break
+			}
+			txt := promPrintNode(fset, st)
+			if !strings.Contains(txt, "_str") {
+				continue
+			}
+			ifs, ok := st.(*ast.IfStmt)
+			if !ok || ifs.Else != nil || ifs.Init != nil || len(ifs.Body.List) != 1 {
+				return "", fmt.Errorf("getMatchers: statement touching _str before the switch not recognised: %s", txt)
+			}
+			var collect func(e ast.Expr) bool
+			collect = func(e ast.Expr) bool {
+				be, ok := e.(*ast.BinaryExpr)
+				if !ok {
+					return false
+				}
+				if be.Op == token.LOR {
+					return collect(be.X) && collect(be.Y)
+				}
+				if be.Op != token.EQL || promPrintNode(fset, be.X) != "selector.Op" {
+					return false
+				}
+				op, ok := strLit(be.Y)
+				if !ok {
+					return false
+				}
+				anchoredOps = append(anchoredOps, op)
+				return true
+			}
+			if !collect(ifs.Cond) {
+				return "", fmt.Errorf("getMatchers: condition %q not recognised", promPrintNode(fset, ifs.Cond))
+			}
+			as, ok := ifs.Body.List[0].(*ast.AssignStmt)
+			if !ok || len(as.Lhs) != 1 || promPrintNode(fset, as.Lhs[0]) != "_str" || as.Tok != token.ASSIGN {
+				return "", fmt.Errorf("getMatchers: value rewrite not recognised")
+			}
+			outer, ok := as.Rhs[0].(*ast.BinaryExpr)
+			if !ok || outer.Op != token.ADD {
+				return "", fmt.Errorf("getMatchers: value rewrite not recognised")
+			}
+			inner, ok := outer.X.(*ast.BinaryExpr)
+			if !ok || inner.Op != token.ADD || promPrintNode(fset, inner.Y) != "_str" {
+				return "", fmt.Errorf("getMatchers: value rewrite not recognised")
+			}
+			var ok1, ok2 bool
+			anchorPre, ok1 = strLit(inner.X)
+			anchorSuf, ok2 = strLit(outer.Y)
+			if !ok1 || !ok2 {
+				return "", fmt.Errorf("getMatchers: value rewrite not recognised")
+			}
+		}
 		var b strings.Builder
 		b.WriteString("namespace Qryn.Gen.ProfSelect\n")
 		b.WriteString("/-- getMatchers: pseudo-label ↦ (SQL field, applied inside arrayExists(x -> …, sample_types_units)) -/\n")
@@ -180,7 +240,9 @@ func init() {
 			}
 			fmt.Fprintf(&b, "(%s, (%s, %v))", leanStr(c.op), leanStr(c.fn), c.match)
 		}
-		b.WriteString("]\nend Qryn.Gen.ProfSelect\n")
+		b.WriteString("]\n/-- getMatchers: operators whose value is wrapped as prefix ++ value ++ suffix before it reaches match() -/\n")
+		fmt.Fprintf(&b, "def anchoredOps : List String := %s\ndef valuePrefix : String := %s\ndef valueSuffix : String := %s\n", leanStrList(anchoredOps), leanStr(anchorPre), leanStr(anchorSuf))
+		b.WriteString("end Qryn.Gen.ProfSelect\n")
 		return b.String(), nil
 	})
 }
